@@ -9,6 +9,7 @@ import (
 	"sort"
 	"strings"
 	"sync/atomic"
+	"syscall"
 	"time"
 
 	"github.com/couchbase/moss"
@@ -40,7 +41,8 @@ type Exec struct {
 	events          evlog
 	handles         []*handle
 	copies          []copyRec
-	history         []*Node // C12: contents per persistence round since the last compaction
+	bigs            []*bigRec // boundary-length entries outside the model (C19)
+	history         []*Node   // C12: contents per persistence round since the last compaction
 	shapes          map[string]bool
 	lastCompactions uint64
 	lastPartial     uint64
@@ -130,6 +132,7 @@ func runCaseEx(c *Case) (out *Outcome, classes []string, err error) {
 		}
 	}()
 	e.fs = NewFS(dir, c.Faults)
+	e.fs.NoData = hasBig(c.Prog) // no crash images in such cases: do not keep copies of 16 MiB writes
 	registerFS(e.fs)
 	defer unregisterFS(e.fs)
 
@@ -574,6 +577,8 @@ func (e *Exec) step(op Op) {
 	switch op.Kind {
 	case "batch":
 		e.doBatch(op.B)
+	case "bigkv":
+		e.doBigKV(op)
 	case "verify":
 		e.checkColl("verify")
 	case "notify":
@@ -818,6 +823,9 @@ func (e *Exec) checkColl(why string) {
 	if m == nil && e.flag("readPaths") {
 		m = e.readPathsAgree(ss, want, probes)
 	}
+	if m == nil && len(e.bigs) > 0 {
+		e.checkBig(ss, "collection")
+	}
 	ss.Close()
 	if m != nil {
 		e.failD("content-mismatch", map[string]string{"symptom": m.Kind, "where": "collection", "path": m.Path, "key": m.Key},
@@ -913,6 +921,9 @@ func (e *Exec) checkStore(why string) int {
 		if m := equalContent(ss, e.hist.Models[j], e.probeKeys(), ""); m != nil {
 			e.failD("store-content-mismatch", map[string]string{"symptom": m.Kind, "where": "store", "path": m.Path, "key": m.Key},
 				"store snapshot (%s) iterates as prefix %d but point reads disagree: %s", why, j, m)
+		}
+		if len(e.bigs) > 0 {
+			e.checkBig(ss, "store")
 		}
 	}
 	// equal-content batches make the index ambiguous: "holds everything" means
@@ -1104,6 +1115,9 @@ func (e *Exec) afterReopen(wasDrained, gaugesZero bool, why string) {
 		e.failD("reopen-content-mismatch", map[string]string{"symptom": m.Kind, "where": "reopen", "path": m.Path, "key": m.Key},
 			"reopened collection iterates as prefix %d but point reads disagree: %s", j, m)
 	}
+	if len(e.bigs) > 0 {
+		e.checkBig(ss, "reopen")
+	}
 	ss.Close()
 	e.out.Checks++
 	if j < n {
@@ -1212,7 +1226,13 @@ func (e *Exec) tryOversize(b moss.Batch) {
 	}
 	if simrt.Chance(pBig, "bigval") {
 		if oversizeVal == nil {
-			oversizeVal = make([]byte, 1<<28)
+			// never written: an anonymous mapping costs nothing until somebody
+			// copies it (which a store that checks the limit first never does)
+			m, err := syscall.Mmap(-1, 0, 1<<28, syscall.PROT_READ, syscall.MAP_ANON|syscall.MAP_PRIVATE)
+			if err != nil {
+				m = make([]byte, 1<<28)
+			}
+			oversizeVal = m
 		}
 		if err := b.Set([]byte("big"), oversizeVal); err != moss.ErrValueTooLarge {
 			e.failD("limit-not-enforced", map[string]string{"symptom": "value-limit"}, "Set with a value of 2^28 bytes: err=%v, want ErrValueTooLarge", err)
